@@ -338,3 +338,22 @@ def lot_after_cut_needed(rng: random.Random) -> Tuple[Dict[str, Any], str]:
     if rng.random() < 0.5:
         b.acquire(second + timedelta(days=rng.randint(2, 50)), 1, 200)
     return b.done(rng, shuffle=rng.random() < 0.5), boundary.date().isoformat()
+
+
+def same_second_fee_lots(rng: random.Random, asset: str = "AAA") -> Dict[str, Any]:
+    """Parser-path family (C17): 2-4 acquisitions that pay a crypto fee, all inside one second at pairwise distinct
+    microseconds and at different prices, then disposals that consume some of them. All timestamps are distinct instants,
+    so the result may not depend on the order of the rows in the sheet."""
+    b = HB(asset=asset, exchanges=EXCHANGES[:2], holders=HOLDERS[:2])
+    t = T(rng.randint(2016, 2022), rng.randint(1, 12), rng.randint(1, 28), rng.randint(0, 23), rng.randint(0, 59), rng.randint(0, 59))
+    b.acquire(t - timedelta(days=rng.randint(30, 400)), rng.choice((1, 2)), rng.randint(50, 500), ho="Alice")
+    micros = sorted(rng.sample(range(1, 999999), rng.randint(2, 4)))
+    held = Decimal(0)
+    for micro in micros:
+        amount = Decimal(rng.choice((1, 2, 4)))
+        b.acquire(t + timedelta(microseconds=micro), amount, rng.randint(50, 900), ho="Alice", cfee=rng.choice(("0.01", "0.02", "0.001")))
+        held += amount
+    later = t + timedelta(seconds=1, microseconds=rng.randint(0, 500000))
+    b.dispose(later, rng.choice(("0.5", "1", "1.5")), rng.randint(50, 900), ho="Alice", ttype=rng.choice(("SELL", "GIFT")))
+    b.dispose(later + timedelta(days=rng.randint(1, 500)), rng.choice(("0.5", "1")), rng.randint(50, 900), ho="Alice")
+    return b.done(rng, shuffle=True)
